@@ -56,6 +56,13 @@ class Evaluator:
         key = norm(e)
         if key in self.atoms:
             return self.atoms[key]
+        # receiver-insensitive atoms: '.attr' for any `<x>.attr` load, '.meth()' for any `<x>.meth(...)` call
+        if isinstance(e, ast.Attribute) and ('.' + e.attr) in self.atoms:
+            return self.atoms['.' + e.attr]
+        if isinstance(e, ast.Call) and isinstance(e.func, ast.Attribute) and ('.' + e.func.attr + '()') in self.atoms:
+            return self.atoms['.' + e.func.attr + '()']
+        if isinstance(e, ast.Call) and isinstance(e.func, ast.Name) and (e.func.id + '()') in self.atoms:
+            return self.atoms[e.func.id + '()']
         if isinstance(e, ast.Constant):
             return e.value
         if isinstance(e, ast.Name):
@@ -130,6 +137,25 @@ class Evaluator:
                     return len(v)
             if fn in ('cast',) and len(e.args) == 2:
                 return self.ev(e.args[1])
+            if isinstance(e.func, ast.Attribute) and e.func.attr == 'get' and e.args and not e.keywords:
+                d = self.ev(e.func.value)
+                if isinstance(d, dict):
+                    k = self.ev(e.args[0])
+                    dflt = self.ev(e.args[1]) if len(e.args) > 1 else None
+                    if k is not UNKNOWN and dflt is not UNKNOWN:
+                        try:
+                            return d.get(k, dflt)
+                        except TypeError:
+                            return UNKNOWN
+            return UNKNOWN
+        if isinstance(e, ast.Subscript):
+            d = self.ev(e.value)
+            k = self.ev(e.slice)
+            if d is not UNKNOWN and k is not UNKNOWN and isinstance(d, (dict, tuple, list)):
+                try:
+                    return d[k]
+                except Exception:  # noqa: BLE001
+                    return UNKNOWN
             return UNKNOWN
         if isinstance(e, (ast.Tuple, ast.List, ast.Set)):
             vals = [self.ev(x) for x in e.elts]
@@ -255,52 +281,85 @@ def run_paths(
     init_locals: Optional[Dict[str, Any]] = None,
     loop_bound: int = 1,
     for_iter: Optional[Callable[[Node, Evaluator], Any]] = None,
+    limit: int = 200000,
 ) -> Tuple[Set[Tuple[Any, ...]], List[str]]:
     """Outcomes (tuple of effect labels + ('ret', value) / ('raise', text)) of all
-    paths that are feasible under `atoms`; plus tests left undecided."""
+    paths that are feasible under `atoms`; plus tests left undecided.  Depth-first
+    over the CFG with on-the-fly evaluation: a decided test prunes the other arm."""
     outcomes: Set[Tuple[Any, ...]] = set()
     undecided: List[str] = []
-    for path in cfg.paths(start=start, stop=stop, loop_bound=loop_bound):
-        evl = Evaluator(prog, module, atoms, init_locals)
-        eff: List[Any] = []
-        feasible = True
-        for node, lab in path:
-            if node.kind in ('test', 'loop_test'):
-                v = evl.ev(node.ast)  # type: ignore[arg-type]
-                if v is UNKNOWN:
-                    t = norm(node.ast)  # type: ignore[arg-type]
-                    if t not in undecided:
-                        undecided.append(t)
-                elif lab is not None and evl._truth(v) != bool(lab):
-                    feasible = False
-                    break
-                eff.extend(effect_fn(node, evl))
-            elif node.kind == 'for':
-                if for_iter is not None:
-                    r = for_iter(node, evl)
-                    # r: True -> must iterate, False -> must skip, None -> either
-                    if r is not None and lab is not None and ((lab == 'iter') != r):
-                        feasible = False
-                        break
-                if lab == 'iter':
-                    evl._bind(node.ast.target, UNKNOWN)  # type: ignore[attr-defined]
-                eff.extend(effect_fn(node, evl))
-            elif node.kind == 'stmt':
-                eff.extend(effect_fn(node, evl))
-                evl.assign(node.ast)  # type: ignore[arg-type]
-            elif node.kind == 'return':
-                eff.extend(effect_fn(node, evl))
-                rv = node.ast.value  # type: ignore[attr-defined]
-                val = evl.ev(rv) if rv is not None else None
-                eff.append(('ret', 'UNKNOWN' if val is UNKNOWN else val))
-            elif node.kind == 'raise':
-                eff.extend(effect_fn(node, evl))
-                ex = node.ast.exc  # type: ignore[attr-defined]
-                eff.append(('raise', norm(ex.func) if isinstance(ex, ast.Call) else (norm(ex) if ex is not None else '')))
+    start = start or cfg.entry
+    # state: node, locals, effects, loop-entry counts, first?
+    stack: List[Tuple[Node, Dict[str, Any], Tuple[Any, ...], Dict[int, int], bool]] = [
+        (start, dict(init_locals or {}), (), {}, True)
+    ]
+    steps = 0
+    while stack:
+        node, loc, eff, used, first = stack.pop()
+        steps += 1
+        if steps > limit:
+            raise AnalysisError(f'path explosion in {getattr(cfg.fn, "name", "?")} (> {limit} steps)')
+        if node is cfg.exit or node is cfg.raise_exit or (stop is not None and not first and stop(node)):
+            outcomes.add(eff)
+            continue
+        evl = Evaluator(prog, module, atoms, loc)
+        allowed: Optional[Any] = None  # restrict outgoing labels
+        new_eff = list(eff)
+        if node.kind in ('test', 'loop_test'):
+            v = evl.ev(node.ast)  # type: ignore[arg-type]
+            new_eff.extend(effect_fn(node, evl))
+            if v is UNKNOWN:
+                t = norm(node.ast)  # type: ignore[arg-type]
+                if t not in undecided:
+                    undecided.append(t)
             else:
-                eff.extend(effect_fn(node, evl))
-        if feasible:
-            outcomes.add(tuple(eff))
+                allowed = evl._truth(v)
+        elif node.kind == 'for':
+            new_eff.extend(effect_fn(node, evl))
+            if for_iter is not None:
+                r = for_iter(node, evl)
+                if r is not None:
+                    allowed = 'iter' if r and used.get(node.id, 0) < loop_bound else 'done'
+        elif node.kind == 'stmt':
+            new_eff.extend(effect_fn(node, evl))
+            evl.assign(node.ast)  # type: ignore[arg-type]
+        elif node.kind == 'return':
+            new_eff.extend(effect_fn(node, evl))
+            rv = node.ast.value  # type: ignore[attr-defined]
+            val = evl.ev(rv) if rv is not None else None
+            new_eff.append(('ret', 'UNKNOWN' if val is UNKNOWN else val))
+        elif node.kind == 'raise':
+            new_eff.extend(effect_fn(node, evl))
+            ex = node.ast.exc  # type: ignore[attr-defined]
+            new_eff.append(('raise', norm(ex.func) if isinstance(ex, ast.Call) else (norm(ex) if ex is not None else '')))
+            outcomes.add(tuple(new_eff))
+            continue
+        else:
+            new_eff.extend(effect_fn(node, evl))
+        te = tuple(new_eff)
+        for s, lab in reversed(node.succ):
+            if lab == 'exc':
+                continue
+            is_back = isinstance(lab, tuple) and lab and lab[0] == 'back'
+            elabel = lab[1] if is_back else lab
+            if allowed is not None and elabel is not None:
+                if node.kind in ('test', 'loop_test') and bool(elabel) != allowed:
+                    continue
+                if node.kind == 'for' and elabel != allowed:
+                    continue
+            u = used
+            enters = (node.kind == 'for' and elabel == 'iter') or (node.kind == 'loop_test' and elabel is True)
+            l2 = evl.locals
+            if enters:
+                if used.get(node.id, 0) >= loop_bound:
+                    continue
+                u = dict(used)
+                u[node.id] = used.get(node.id, 0) + 1
+                if node.kind == 'for':
+                    e2 = Evaluator(prog, module, atoms, evl.locals)
+                    e2._bind(node.ast.target, UNKNOWN)  # type: ignore[attr-defined]
+                    l2 = e2.locals
+            stack.append((s, dict(l2), te, u, False))
     return outcomes, undecided
 
 
